@@ -205,6 +205,12 @@ def install(reg):
         if h is not None:
             r = h(e, st, args, kw, node)
             if r is not None: return r
+        if len(args) == 1 and not kw and isinstance(args[0].t, ListT) and args[0].t.elem != ANY:
+            # sorted(list): an (uninterpreted) function of the list content with the same length; nothing else is assumed
+            lt = args[0].t; L = e.deref(st, args[0])
+            f = z3.Function('py_sorted_' + lt.name(), sort_of(lt), sort_of(lt)); R = f(L)
+            st.assume(list_len(lt, R) == list_len(lt, L))
+            return [(st, V(lt, R))]
         return None
     @M('hasattr')
     def _hasattr(e, st, args, kw, node):
